@@ -5,6 +5,6 @@ CONSTANTS
   MaxItems = 4
   Cap = 99
   D = 3
-  Starts = {0, 1, 2}
+  Starts = {0, 1, 2, 3}
 CONSTRAINT Emit
 CHECK_DEADLOCK FALSE
